@@ -36,10 +36,36 @@ Enumeration:
   segment_segment_set 2-D: every directed main segment of [-1,2]^2 (240) against all 240 (quick) -- exhaustive 57 600
                       pairs; thorough [-2,2]^2 (600 x 600); 3-D seeded incl. forced parallel / intersecting / skew.
   points_polygon      catalogue of 6 planar polygons (convex, non-convex, cw and ccw, oblique planes) x all integer
-                      points of the box [-1,3]^3 (125), exhaustive.
+                      points of the box [-1,5]^3 (343), exhaustive.
   segments_polygon    same catalogue x seeded integer segments of the box, a third forced in-plane or parallel.
 
-Detection power and findings: see the end of the docstring (filled in after the runs).
+Unchanged tree: point_pointset, points_segments, segment_segment_set satisfy the contract on every case; so does
+points_polygon / segments_polygon for convex polygons except (b).  Violations kept strict and reported to the lead:
+  (a) non-convex polygons, signatures containing "[edge-collinear interior point]"
+      ("points_polygon: distance is exact", "segments_polygon: distance is exact"): a point of the polygon's interior
+      that is collinear with one of the polygon's edges (lies on the extension of an edge) is treated as "on the
+      boundary -> not inside" by pp.geometry_property_checks.point_in_polygon (root cause, see C31), so the distance
+      is taken to the edges instead of to the plane:  L-shaped polygon (0,1,0),(4,1,0),(4,1,2),(2,1,2),(2,1,4),(0,1,4),
+      point p=(2,1,1) lies in it, points_polygon returns d=1 (exact 0).
+  (b) "segments_polygon: closest point on one object at distance d from the other" / "... segment in-plane touching":
+      for a segment in the polygon's plane whose END point is in the polygon but whose START point is not, d=0 is
+      returned together with cp = start point, which is neither on the polygon nor at distance 0 from it
+      (square (0,0,0),(2,0,0),(2,2,0),(0,2,0); segment (-2,2,0)->(1,1,0): cp=(-2,2,0)).
+
+Detection power (scratch copy of /repo/src under /var/tmp, POREPY_SRC=<copy>, one bug at a time in distances.py, quick
+tier; each gave exit 1 with VIOLATION lines whose (obligation, signature) do not occur on the unchanged tree):
+  M1  points_segments, 'one point' loop: `cp[pi, above, :] = ...end...` -> `start` (swapped end point)
+        -> "points_segments: closest point is exact" (2d/3d closest point at end) and "points_polygon: closest point realises d"
+  M2  segment_segment_set: `tN[s1_visible] = dot_1_2 + dot_2_starts` -> `-`
+        -> "segment_segment_set: distance is exact" (non-parallel apart)
+  M3  segment_segment_set: parallel case dropped (`parallel = discr < -1`)
+        -> "segment_segment_set: distance is exact" (parallel apart / touching, 2d and 3d)
+  M4  points_polygon: `d[in_poly] = np.abs(p[2, in_poly])` -> without abs
+        -> "points_polygon: distance is exact", "... closest point realises d" (projection inside), segments_polygon distances
+  M5  segments_polygon: `if d_end_poly[si] < md` -> `>`
+        -> "segments_polygon: distance is exact" (convex polygon, segment one side apart)
+  M6  segment_segment_set: `-dot_1_starts > dot_1_1` -> `> dot_2_2` (wrong clamp bound)
+        -> "segment_segment_set: distance is exact", "... cp1 lies on the main segment"
 """
 from __future__ import annotations
 
@@ -53,7 +79,7 @@ META = {
                  "the real pp.distances functions, results compared with exact rational squared-distance oracles",
     "text": "Tier B only: distance value, closest-point membership and closest-point distance are checked on the real functions "
             "for all 2-D point-segment configurations of [-2,2]^2 (exhaustive), all segment pairs of [-1,2]^2 (quick) / [-2,2]^2 "
-            "(thorough), a catalogue of 6 planar polygons against all integer points of [-1,3]^3, and seeded 3-D segment and "
+            "(thorough), a catalogue of 6 planar polygons against all integer points of [-1,5]^3, and seeded 3-D segment and "
             "segment-polygon configurations. The Ps proof of the clamped-projection kernel (DESIGN) is not included.",
     "note": "oracles in fractions.Fraction on squared distances; returned floats compared at 1e-9 relative to the coordinate magnitude",
 }
@@ -149,9 +175,23 @@ class Polygon:
         k = max(range(3), key=lambda i: abs(self.n[i]))
         self.keep = [i for i in range(3) if i != k]
         self.v2 = [tuple(x[i] for i in self.keep) for x in self.v]
+        k = len(self.v2)
+        turn = [(self.v2[(i + 1) % k][0] - self.v2[i][0]) * (self.v2[(i + 2) % k][1] - self.v2[(i + 1) % k][1])
+                - (self.v2[(i + 1) % k][1] - self.v2[i][1]) * (self.v2[(i + 2) % k][0] - self.v2[(i + 1) % k][0]) for i in range(k)]
+        self.kind = "convex polygon" if (all(t > 0 for t in turn) or all(t < 0 for t in turn)) else "non-convex polygon"
 
     def status_in_plane(self, q):
         return point_in_polygon_2d(self.v2, tuple(q[i] for i in self.keep))
+
+    def on_edge_line(self, q):
+        """q (in the plane) is collinear with some edge (lies on the edge or on its extension)"""
+        q2 = tuple(q[i] for i in self.keep)
+        k = len(self.v2)
+        for i in range(k):
+            a, b = self.v2[i], self.v2[(i + 1) % k]
+            if (q2[0] - a[0]) * (b[1] - a[1]) == (q2[1] - a[1]) * (b[0] - a[0]):
+                return True
+        return False
 
     def d2_point(self, p):
         h = dot(self.n, sub(p, self.v[0]))
@@ -180,8 +220,8 @@ POLYGONS = {
     "square z=0 ccw": [(0, 0, 0), (2, 0, 0), (2, 2, 0), (0, 2, 0)],
     "square z=1 cw": [(0, 0, 1), (0, 2, 1), (2, 2, 1), (2, 0, 1)],
     "triangle x+y+z=2": [(2, 0, 0), (0, 2, 0), (0, 0, 2)],
-    "L-shape y=1 (non-convex)": [(0, 1, 0), (2, 1, 0), (2, 1, 1), (1, 1, 1), (1, 1, 2), (0, 1, 2)],
-    "arrow in z=x (non-convex)": [(0, 0, 0), (2, 0, 2), (1, 1, 1), (2, 2, 2), (0, 2, 0)],
+    "L-shape y=1 (non-convex)": [(0, 1, 0), (4, 1, 0), (4, 1, 2), (2, 1, 2), (2, 1, 4), (0, 1, 4)],
+    "arrow in z=x (non-convex)": [(0, 0, 0), (4, 0, 4), (2, 2, 2), (4, 4, 4), (0, 4, 0)],
     "quadrilateral x=y": [(0, 0, 0), (2, 2, 0), (2, 2, 2), (0, 0, 1)],
 }
 
@@ -225,11 +265,11 @@ def _sweep_points_segments(rep, pp, quick):
                 tol = RTOL * scale_of(p, s, e)
                 region = "start" if C == tuple(map(Fraction, s)) else ("end" if C == tuple(map(Fraction, e)) else "interior")
                 if not dist_matches(d[i, j], D2, tol):
-                    rep.violation(f"{name}: distance equals the exact point-segment distance", f"{dim}d closest point at {region} [{how}]",
+                    rep.violation(f"{name}: distance is exact", f"{dim}d closest point at {region} [{how}]",
                                   inputs={"fn": name, "p": p, "s": s, "e": e, "how": how},
                                   detail=f"returned d={float(d[i, j])!r}, exact d^2={D2}", confirmed=True)
                 if not pts_close(cp[i, j], C, tol):
-                    rep.violation(f"{name}: closest point is the exact closest point on the segment", f"{dim}d closest point at {region} [{how}]",
+                    rep.violation(f"{name}: closest point is exact", f"{dim}d closest point at {region} [{how}]",
                                   inputs={"fn": name, "p": p, "s": s, "e": e, "how": how},
                                   detail=f"returned cp={cp[i, j].tolist()}, exact {[str(c) for c in C]}", confirmed=True)
 
@@ -302,7 +342,7 @@ def _sweep_points_segments(rep, pp, quick):
             for k, q in enumerate(pts):
                 D2 = Fraction(dot(sub(pts[0], q), sub(pts[0], q)))
                 if not dist_matches(dd[k], D2, RTOL * scale_of(pts[0], q)):
-                    rep.violation("point_pointset: distance equals the Euclidean distance", "3d integer points",
+                    rep.violation("point_pointset: distance is exact", "3d integer points",
                                   inputs={"fn": "point_pointset", "p": pts[0], "set": pts}, detail=f"d[{k}]={dd[k]!r}, exact d^2={D2}")
     with rep.sweep(
         "point_pointset 2-D exhaustive",
@@ -320,7 +360,7 @@ def _sweep_points_segments(rep, pp, quick):
                 sw.case(key=(p, q), nontrivial=(p != q))
                 for how, val in (("set", dd[k]), ("single", d1[0])):
                     if not dist_matches(val, D2, RTOL * scale_of(p, q)):
-                        rep.violation("point_pointset: distance equals the Euclidean distance", f"2d integer points [{how}]",
+                        rep.violation("point_pointset: distance is exact", f"2d integer points [{how}]",
                                       inputs={"fn": "point_pointset", "p": p, "set": [q]}, detail=f"d={val!r}, exact d^2={D2}")
 
 
@@ -351,18 +391,18 @@ def check_segment_segment(rep, pp, dim, main, others, how):
         cls = _seg_class(s, e, a, b)
         inp = {"fn": name, "main": main, "set": [(a, b)], "how": how}
         if not dist_matches(d[j], D2, tol):
-            rep.violation(f"{name}: distance equals the exact segment-segment distance", f"{dim}d {cls} [{how}]", inputs=inp,
+            rep.violation(f"{name}: distance is exact", f"{dim}d {cls} [{how}]", inputs=inp,
                           detail=f"main {main}, other {(a, b)}: returned d={float(d[j])!r}, exact d^2={D2}")
         c1, c2 = F(cp1[:, j]), F(cp2[:, j])
         if d2_point_seg(c1, s, e)[0] > Fraction(tol) ** 2:
-            rep.violation(f"{name}: first closest point lies on the main segment", f"{dim}d {cls} [{how}]", inputs=inp,
+            rep.violation(f"{name}: cp1 lies on the main segment", f"{dim}d {cls} [{how}]", inputs=inp,
                           detail=f"main {main}, other {(a, b)}: cp1={cp1[:, j].tolist()}")
         if d2_point_seg(c2, a, b)[0] > Fraction(tol) ** 2:
-            rep.violation(f"{name}: second closest point lies on the other segment", f"{dim}d {cls} [{how}]", inputs=inp,
+            rep.violation(f"{name}: cp2 lies on the other segment", f"{dim}d {cls} [{how}]", inputs=inp,
                           detail=f"main {main}, other {(a, b)}: cp2={cp2[:, j].tolist()}")
         r = sub(c1, c2)
         if not dist_matches(d[j], dot(r, r), 2 * tol):
-            rep.violation(f"{name}: the closest points realise the returned distance", f"{dim}d {cls} [{how}]", inputs=inp,
+            rep.violation(f"{name}: closest points realise d", f"{dim}d {cls} [{how}]", inputs=inp,
                           detail=f"main {main}, other {(a, b)}: |cp1-cp2|^2={float(dot(r, r))!r}, d={float(d[j])!r}")
 
 
@@ -435,17 +475,19 @@ def check_points_polygon(rep, pp, pname, pts):
         h = dot(poly.n, sub(p, poly.v[0]))
         q = tuple(Fraction(a) - Fraction(h * b, poly.nn) for a, b in zip(p, poly.n))
         where = {"in": "projection inside", "on": "projection on the boundary", "out": "projection outside"}[poly.status_in_plane(q)]
+        if where == "projection inside" and poly.on_edge_line(q):
+            where += " [edge-collinear interior point]"
         inp = {"fn": name, "polygon": pname, "points": [p]}
         if not dist_matches(d[i], D2, tol):
-            rep.violation(f"{name}: distance equals the exact point-polygon distance", f"{pname}, {where}", inputs=inp,
+            rep.violation(f"{name}: distance is exact", f"{poly.kind}, {where}", inputs=inp,
                           detail=f"p={p}: returned d={float(d[i])!r}, exact d^2={D2}")
         c = F(cp[:, i])
         if poly.d2_point(c) > Fraction(tol) ** 2:
-            rep.violation(f"{name}: closest point lies on the polygon", f"{pname}, {where}", inputs=inp,
+            rep.violation(f"{name}: closest point lies on the polygon", f"{poly.kind}, {where}", inputs=inp,
                           detail=f"p={p}: cp={cp[:, i].tolist()} has squared distance {float(poly.d2_point(c))!r} to the polygon")
         r = sub(c, p)
         if not dist_matches(d[i], dot(r, r), 2 * tol):
-            rep.violation(f"{name}: the closest point realises the returned distance", f"{pname}, {where}", inputs=inp,
+            rep.violation(f"{name}: closest point realises d", f"{poly.kind}, {where}", inputs=inp,
                           detail=f"p={p}: cp={cp[:, i].tolist()}, |p-cp|^2={float(dot(r, r))!r}, d={float(d[i])!r}")
 
 
@@ -465,11 +507,19 @@ def check_segments_polygon(rep, pp, pname, segs):
         D2 = poly.d2_segment(s, e)
         tol = RTOL * scale_of(s, e, *poly.v)
         hs, he = dot(poly.n, sub(s, poly.v[0])), dot(poly.n, sub(e, poly.v[0]))
-        cls = ("in-plane" if hs == 0 == he else ("parallel to the plane" if hs == he else ("crossing the plane" if hs * he <= 0 else "one side")))
+        cls = ("in-plane" if hs == 0 == he else ("parallel" if hs == he else ("crossing" if hs * he <= 0 else "one side")))
         cls += ", touching" if D2 == 0 else ", apart"
+        special = []  # points whose in/out status decides the distance
+        if hs != he and hs * he <= 0:
+            t = Fraction(hs) / (hs - he)
+            special.append(tuple(a + t * (b - a) for a, b in zip(s, e)))
+        for pt, h in ((s, hs), (e, he)):
+            special.append(tuple(Fraction(a) - Fraction(h * b, poly.nn) for a, b in zip(pt, poly.n)))
+        if any(poly.status_in_plane(x) == "in" and poly.on_edge_line(x) for x in special):
+            cls += " [edge-collinear interior point]"
         inp = {"fn": name, "polygon": pname, "segments": [(s, e)]}
         if not dist_matches(d[j], D2, tol):
-            rep.violation(f"{name}: distance equals the exact segment-polygon distance", f"{pname}: segment {cls}", inputs=inp,
+            rep.violation(f"{name}: distance is exact", f"{poly.kind}, segment {cls}", inputs=inp,
                           detail=f"segment {(s, e)}: returned d={float(d[j])!r}, exact d^2={D2}")
             continue
         c = F(cp[:, j])
@@ -477,18 +527,18 @@ def check_segments_polygon(rep, pp, pname, segs):
         on_poly, on_seg = poly.d2_point(c) <= t2, d2_point_seg(c, s, e)[0] <= t2
         ok = (on_poly and dist_matches(d[j], d2_point_seg(c, s, e)[0], 2 * tol)) or (on_seg and dist_matches(d[j], poly.d2_point(c), 2 * tol))
         if not ok:
-            rep.violation(f"{name}: closest point lies on one object at the returned distance from the other", f"{pname}: segment {cls}",
+            rep.violation(f"{name}: closest point on one object at distance d from the other", f"{poly.kind}, segment {cls}",
                           inputs=inp, detail=f"segment {(s, e)}: d={float(d[j])!r}, cp={cp[:, j].tolist()}: on polygon={on_poly}, "
                           f"on segment={on_seg}, dist(cp,segment)^2={float(d2_point_seg(c, s, e)[0])!r}, dist(cp,polygon)^2={float(poly.d2_point(c))!r}")
 
 
 def _sweep_polygons(rep, pp, quick):
-    box = list(itertools.product(range(-1, 4), repeat=3))
+    box = list(itertools.product(range(-1, 6), repeat=3))
     with rep.sweep(
         "points_polygon catalogue x box",
-        rule="each of the 6 catalogue polygons against all 125 integer points of [-1,3]^3 (one vectorised call per polygon plus one call "
+        rule="each of the 6 catalogue polygons against all 343 integer points of [-1,5]^3 (one vectorised call per polygon plus one call "
              "per point for every 5th point); non-trivial = the point is not a vertex of the polygon; distinct by (polygon, point)",
-        bound="6 polygons x 125 points",
+        bound="6 polygons x 343 points",
         exhaustive=True,
     ) as sw:
         for pname in POLYGONS:
@@ -500,7 +550,7 @@ def _sweep_polygons(rep, pp, quick):
     n = 250 if quick else 4000
     with rep.sweep(
         "segments_polygon catalogue x seeded segments",
-        rule="per catalogue polygon, seeded integer segments of [-1,3]^3: a third arbitrary, a third with both end points in the polygon's "
+        rule="per catalogue polygon, seeded integer segments of [-1,5]^3: a third arbitrary, a third with both end points in the polygon's "
              "plane or parallel to it, a third through an integer point of the polygon's plane; non-trivial = the segment is in-plane, "
              "parallel, or touches the polygon; distinct by (polygon, segment)",
         bound=f"6 polygons x {n} segments",
@@ -509,7 +559,7 @@ def _sweep_polygons(rep, pp, quick):
         rng = rep.rng
         for pname in POLYGONS:
             poly = Polygon(POLYGONS[pname])
-            plane_pts = [p for p in itertools.product(range(-2, 5), repeat=3) if dot(poly.n, sub(p, poly.v[0])) == 0]
+            plane_pts = [p for p in itertools.product(range(-2, 7), repeat=3) if dot(poly.n, sub(p, poly.v[0])) == 0]
             segs = []
             while len(segs) < n:
                 k = len(segs) % 3
